@@ -4,7 +4,7 @@ from __future__ import annotations
 import ast
 from typing import Any, Dict, List, Optional, Set, Tuple
 
-from sa import AnalysisError
+from sa import AnalysisError, StructuralViolation
 from sa import fd, lf
 from sa.cf import cfg_of
 from sa.fd import Sym
@@ -84,6 +84,48 @@ def index(ctx: Any) -> List[Ob]:
     pa, pr = _index_profile(add), _index_profile(rem)
     for idx in REG_INDEXES:
         obs.append(ob(R, add, f'self.{idx}: add keys {sorted(pa.get(idx, []))}', f'add and remove both maintain `{idx}` with the same key provenance', bool(pa.get(idx)) and pa.get(idx) == pr.get(idx), f'remove keys {sorted(pr.get(idx, []))}'))
+    # the service table itself: an add stores the description under its key, a remove of a registered name deletes that entry
+    # (and nothing is touched for a name that is not registered)
+    rme0 = rem.params[0]
+
+    def eff_tab(node: Any, evl: Any) -> List[Any]:
+        out = []
+        if node.kind == 'stmt':
+            for y in walk_local_ordered(node.ast):
+                if isinstance(y, ast.Delete) and any(isinstance(t, ast.Subscript) and self_attr(t.value, rme0) == '_services' for t in y.targets):
+                    out.append('DROP')
+                if isinstance(y, ast.Call) and call_name(y) == 'pop' and isinstance(y.func, ast.Attribute) and self_attr(y.func.value, rme0) == '_services':
+                    out.append('DROP')
+                if isinstance(y, ast.Call) and isinstance(y.func, ast.Attribute) and self_attr(y.func, rme0) and any(self_attr(a, rme0) in ('types', 'servers') for a in y.args):
+                    out.append('UNINDEX')
+        return out
+
+    for registered in (True, False):
+        oc_t, _ = fd.run_paths(prog, rem.module, cfg_of(rem.node), {'.get()': fd.Sym('registered') if registered else None, f'{rme0}._services.get()': fd.Sym('registered') if registered else None}, eff_tab, loop_bound=1, for_iter=lambda n, e: True)
+        seqs = {tuple(sorted(x for x in strip_ret(t) if x in ('DROP', 'UNINDEX'))) for t in oc_t if any(True for _ in t)}
+        iter_paths = {q for q in seqs}
+        want_t = {('DROP', 'UNINDEX', 'UNINDEX')} if registered else {()}
+        obs.append(ob(R, rem, f'removal of a name that is {"registered" if registered else "not registered"}', 'the entry is deleted from the service table and from both indexes' if registered else 'nothing is touched', (iter_paths - {()}) == (want_t - {()}) and (registered or iter_paths <= {()}), f'effects per path: {sorted(iter_paths)}'))
+    # what goes into the index buckets and what is taken out of them is the same value: the lower-cased key of the service
+    put = [c.args[0] for c in walk_local_ordered(add.node) if isinstance(c, ast.Call) and call_name(c) in ('append', 'add') and c.args and any(isinstance(x, ast.Attribute) and self_attr(x, add.params[0]) in ('types', 'servers') for x in ast.walk(c.func))]
+    took = []
+    for c in walk_local_ordered(rem.node):
+        if isinstance(c, ast.Call) and isinstance(c.func, ast.Attribute) and self_attr(c.func, rme0) and any(self_attr(a, rme0) in ('types', 'servers') for a in c.args):
+            helper = rem.cls.find_method(c.func.attr) if rem.cls else None
+            if helper is not None:
+                hp = helper.params[1:]
+                for rc_ in walk_local_ordered(helper.node):
+                    if isinstance(rc_, ast.Call) and call_name(rc_) in ('remove', 'discard', 'pop') and rc_.args and isinstance(rc_.args[0], ast.Name) and rc_.args[0].id in hp and hp.index(rc_.args[0].id) < len(c.args):
+                        took.append(c.args[hp.index(rc_.args[0].id)])
+                    if isinstance(rc_, ast.Delete):
+                        for t in rc_.targets:
+                            if isinstance(t, ast.Subscript) and isinstance(t.slice, ast.Name) and t.slice.id in hp and hp.index(t.slice.id) < len(c.args) and not (isinstance(t.value, ast.Name) and t.value.id in hp):
+                                took.append(c.args[hp.index(t.slice.id)])
+        if isinstance(c, ast.Call) and call_name(c) in ('remove', 'discard') and c.args and any(isinstance(x, ast.Attribute) and self_attr(x, rme0) in ('types', 'servers') for x in ast.walk(c.func)):
+            took.append(c.args[0])
+    if put and took:
+        shapes_put, shapes_took = {_shape(x) for x in put}, {_shape(x) for x in took}
+        obs.append(ob(R, rem, took[0], 'the value removed from an index bucket is the value that was put into it (the lower-cased key of the service)', shapes_put == shapes_took == {'.key'}, f'put {sorted(shapes_put)}, removed {sorted(shapes_took)}'))
     # has_entries
     st_add = [norm(s.value) for t, s in attr_stores(add.node) if t.attr == 'has_entries' and isinstance(s, ast.Assign)]
     st_rem = [s.value for t, s in attr_stores(rem.node) if t.attr == 'has_entries' and isinstance(s, ast.Assign)]
@@ -172,7 +214,30 @@ def index(ctx: Any) -> List[Ob]:
                 readers = sorted(r for v in need.values() for r in v)
                 obs.append(ob(R, f, c, f'after the last entry of a bucket of {sorted(idxs)} is removed the bucket is deleted (keys are enumerated by: {readers})', not bad and bool(oc), 'an empty bucket is left behind' if bad else ''))
     if n_sites == 0:
-        raise AnalysisError('anchor vanished: no removal from an index bucket found in the registry')
+        raise StructuralViolation(rem.module.rel, rem.qual, 'self.types[...] / self.servers[...] bucket removal', 'unregistering a service takes its name out of the type and the host index', 'no removal from an index bucket is left in the registry')
+    # the public entry points reach the workers, and a lookup by type / host returns every service of the bucket
+    for pub, worker in (('async_add', '_add'), ('async_remove', '_remove'), ('async_update', '_add')):
+        pm = reg.methods.get(pub)
+        if pm is None:
+            raise AnalysisError(f'anchor vanished: ServiceRegistry.{pub}')
+        pc = cfg_of(pm.node)
+        wn = [n for n in pc.nodes if any(call_name(c) == worker and isinstance(c.func, ast.Attribute) and self_attr(c.func, pm.params[0]) for c in n.calls())]
+        skip = pc.path_avoiding(pc.entry, lambda n: n is pc.exit, lambda n: n in wn) if wn else [pc.entry]
+        obs.append(ob(R, pm, f'self.{worker}(...)', f'{pub} applies the change to the registry on every path', bool(wn) and skip is None))
+    gi = reg.methods.get('_async_get_by_index')
+    if gi is not None:
+        gme = gi.params[0]
+        gets_i = {norm(c) for c in ast.walk(gi.node) if isinstance(c, ast.Call) and isinstance(c.func, ast.Attribute) and c.func.attr == 'get' and isinstance(c.func.value, ast.Name) and c.func.value.id in gi.params}
+        for present in (True, False):
+            atoms_i = {g_: (['a', 'b'] if present else None) for g_ in gets_i}
+            oc_i, und_i = traces(ctx, gi, atoms_i, lambda n, e: [], loop_bound=1)
+            rets_i = {x[1] for t in oc_i for x in t if isinstance(x, tuple) and x[0] == 'ret'}
+            if present:
+                comps = [c for c in ast.walk(gi.node) if isinstance(c, (ast.ListComp, ast.GeneratorExp))]
+                whole = any(not g_.ifs for c in comps for g_ in c.generators) and all(not g_.ifs for c in comps for g_ in c.generators) or any(isinstance(c, ast.Call) and call_name(c) in ('list', 'values') for c in ast.walk(gi.node))
+                obs.append(ob(R, gi, 'bucket present', 'every service of the bucket is returned (no filter)', bool(gets_i) and whole and None not in rets_i and '[]' not in rets_i, f'returns {sorted(map(repr, rets_i))}'))
+            else:
+                obs.append(ob(R, gi, 'no bucket for the key', 'an empty list is returned', bool(gets_i) and rets_i <= {'[]'} and bool(rets_i) and not und_i, f'returns {sorted(map(repr, rets_i))}'))
     # one registration per name: when the index buckets hold the service OBJECTS (not names that are resolved through the
     # service table), every writer of the service table must write both indexes on the same path -- else a replaced
     # registration lives on in the buckets and type / host questions are answered from it
@@ -843,6 +908,38 @@ def suppress(ctx: Any) -> List[Ob]:
             o.rule = R
             o.statement = 'the known-answer table is a hash table: equal records must hash equal, else an equal known answer is not found and nothing is suppressed'
             obs.append(o)
+    # `minus records the querier lists as known answers`: wherever the query handler asks whether a record is suppressed, the
+    # record is offered on exactly the paths where the answer was no -- decision table per site over (suppressed?)
+    qh = prog.cls('zeroconf._handlers.query_handler.QueryHandler')
+    n_sites = 0
+    for m in sorted(qh.methods.values(), key=lambda x: x.name):
+        asks = [c for c in walk_local_ordered(m.node) if isinstance(c, ast.Call) and call_name(c) == 'suppresses' and c.args]
+        if not asks:
+            continue
+        keys = {norm(c.args[0]) for c in asks}
+
+        def eff_k(node: Any, evl: Any, keys: Set[str] = keys) -> List[Any]:
+            out = []
+            for c in fd.node_calls(node, evl):
+                if call_name(c) == 'suppresses' and c.args and norm(c.args[0]) in keys:
+                    out.append('ASKED:' + norm(c.args[0]))
+                if call_name(c) in ('append', 'add') and c.args and norm(c.args[0]) in keys:
+                    out.append('OFFER:' + norm(c.args[0]))
+            if node.kind == 'stmt' and isinstance(node.ast, ast.Assign) and isinstance(node.ast.targets[0], ast.Subscript) and norm(node.ast.targets[0].slice) in keys:
+                out.append('OFFER:' + norm(node.ast.targets[0].slice))
+            return out
+
+        for k in sorted(keys):
+            n_sites += 1
+            res = {}
+            for sup in (True, False):
+                oc, _ = traces(ctx, m, {'.suppresses()': sup}, eff_k, loop_bound=1, for_iter=lambda n, e: True)
+                asked = [t for t in oc if 'ASKED:' + k in t]
+                res[sup] = (bool(asked), {('OFFER:' + k in t[t.index('ASKED:' + k):]) for t in asked})
+            good = res[True][0] and res[False][0] and res[True][1] == {False} and res[False][1] == {True}
+            obs.append(ob(R, m, f'known_answers.suppresses({k})', f'`{k}` is offered exactly when the querier\'s known answers do not suppress it', good, f'suppressed -> offered on {sorted(res[True][1])}; not suppressed -> offered on {sorted(res[False][1])}'))
+    if n_sites < 4:
+        raise AnalysisError(f'anchor vanished: known-answer tests of the query handler (found {n_sites})')
     return obs
 
 
